@@ -91,6 +91,7 @@ func runC05(p *Program, r *Report) {
 	r.Floor("C05.guards", 6)
 	r.Floor("C05.dispatch", 35)
 	r.Floor("C05.assigned", 3)
+	r.Floor("C05.writers", 3)
 }
 
 func webpRun(p *Program) *parserRun {
@@ -112,6 +113,7 @@ func checkWebpFields(p *Program, r *Report) {
 		r.Undecide("C05.fields", "webpmeta.extractMetadata", p.Pos(pr.Stuck[0].Pos), "parser not extractable: "+pr.Stuck[0].Why)
 		return
 	}
+	checkFieldWriters(p, r, "C05.writers", "webpmeta", pr)
 	e := pr.E
 	u32 := types.Typ[types.Uint32]
 	for _, kind := range webpKinds {
@@ -315,6 +317,7 @@ func checkPngFields(p *Program, r *Report) {
 		r.Undecide("C05.fields", "pngmeta.extractMetadata", p.Pos(pr.Stuck[0].Pos), "parser not extractable: "+pr.Stuck[0].Why)
 		return
 	}
+	checkFieldWriters(p, r, "C05.writers", "pngmeta", pr)
 	e := pr.E
 	u32 := types.Typ[types.Uint32]
 	wOK, hOK, bOK, tagOK, sigOK, chainOK := true, true, true, true, true, true
@@ -362,6 +365,37 @@ func checkPngFields(p *Program, r *Report) {
 			chainOK, chainWhy = false, why
 		}
 		nLinks += len(tags)
+	}
+	// every chunk arm the parser has must be seen through to a success path: an arm all of whose
+	// paths end at the exploration bound has not been judged at all
+	{
+		covered := map[string]bool{}
+		for _, o := range pr.Succ {
+			for _, t := range tagConds(e, o) {
+				if t.Equal && len(t.Tag) == 4 {
+					covered[t.Tag] = true
+				}
+			}
+		}
+		var lost []string
+		seenLost := map[string]bool{}
+		for _, o := range pr.Outs {
+			if o.Kind != "cutoff" {
+				continue
+			}
+			for _, t := range tagConds(e, o) {
+				if t.Equal && len(t.Tag) == 4 && !covered[t.Tag] && !seenLost[t.Tag] {
+					seenLost[t.Tag] = true
+					lost = append(lost, t.Tag)
+				}
+			}
+		}
+		sort.Strings(lost)
+		if len(lost) > 0 {
+			r.Undecide("C05.fields", "png chunk arms explored", pos, fmt.Sprintf("no explored path through the arm for chunk type %q reaches a successful return (all end at the exploration bound): what that arm does to the reported fields has not been judged", lost))
+		} else {
+			r.Hold("C05.fields", "png chunk arms explored", pos, fmt.Sprintf("every chunk type the parser compares with (%d) lies on at least one explored success path", len(covered)))
+		}
 	}
 	n := len(pr.Succ)
 	r.Check(wOK && n > 0, "C05.fields", "png width", pos, fmt.Sprintf("on all %d explored success paths width = BE32 of IHDR data[0:4]", n), wWhy)
@@ -491,6 +525,7 @@ func checkJpegFields(p *Program, r *Report) {
 		r.Undecide("C05.fields", "jpegmeta.extractMetadata", p.Pos(pr.Stuck[0].Pos), "parser not extractable: "+pr.Stuck[0].Why)
 		return
 	}
+	checkFieldWriters(p, r, "C05.writers", "jpegmeta", pr)
 	e := pr.E
 	u32 := types.Typ[types.Uint32]
 	// dataRuns decodes a field into (segment, index, lo, width) runs
